@@ -327,7 +327,7 @@ pub fn engine_batches(prop: &'static str, tier: &str, seed: u64) -> Vec<Batch<'s
     let fl = flavor_for(prop);
     let (n_plain, n_benign) = match (prop, tier) {
         ("C01", "quick") => (25_000u64, 10_000u64),
-        ("C05", "quick") => (28_000u64, 10_000u64),
+        ("C05", "quick") => (22_000u64, 8_000u64),
         (_, "quick") => (40_000u64, 15_000u64),
         _ => (600_000, 200_000),
     };
